@@ -508,7 +508,7 @@ class TreeGen:
     def leaf(self):
         from hypothesis import strategies as st
 
-        names = ["LeafA", "LeafA", "LeafB", "SubLeafA", "SubSubLeafA", "Strs", "Vals", "TagA", "SlotLeaf", "Checked", "EqLeaf"]
+        names = ["LeafA", "LeafA", "LeafB", "SubLeafA", "SubSubLeafA", "Strs", "Vals", "TagA", "SlotLeaf", "Checked", "EqLeaf", "LocalLeaf"]
         if self.falsy:
             names.append("Falsy")
         if self.servals:
@@ -603,6 +603,11 @@ class TreeGen:
         for cn in ("TagB", "Both", "Both"):  # multiple inheritance: fields from two bases
             opts.append(st.fixed_dictionaries({"c": st.just(cn), "o": self.origin(), "p": self.props(cn),
                                                "k": st.fixed_dictionaries({"kid": opt})}))
+        opts.append(st.fixed_dictionaries({"c": st.just("LocalBox"), "o": self.origin(), "k": st.fixed_dictionaries({"kid": opt})}))
+        opts.append(st.fixed_dictionaries({"c": st.just("Kids"), "o": self.origin(),
+                                           "k": st.fixed_dictionaries({"header": opt, "children": items, "footer": opt})}))
+        opts.append(st.fixed_dictionaries({"c": st.just("KwFirst"), "o": self.origin(), "p": self.props("KwFirst"),
+                                           "k": st.fixed_dictionaries({"late": opt, "early": opt})}))
         if self.bombs:
             bomb = st.fixed_dictionaries(
                 {"c": st.just("BombNode"), "o": self.origin(), "p": self.props("BombNode"),
